@@ -65,11 +65,21 @@ class Env(object):
   # ---- per-case reset
   CASE_SLOT = 20000.0     # virtual seconds reserved per case index
 
+  log_yields = None
+
+  def yielding_logs(self, on=True):
+    """Debug logging of the library switched on, through a handler that yields to the loop on every
+    record (env.log_yields counts them); off again at the next begin_case."""
+    self.log_yields = 0 if on else None
+    logging.getLogger('scales').setLevel(logging.DEBUG if on else logging.INFO)
+
   def begin_case(self, rng, idx=None):
     self.events_total += len(self.events)
     self.events = []
     self.errors = []
     self.logs = []
+    self.yielding_logs(False)
+    self.clock.wall_offset = 0.0
     self.case_rng = rng
     # scales uses the global ``random`` (heap re-insertion, aperture choice,
     # ping period, shuffle): make it a function of the case
@@ -91,7 +101,7 @@ class Env(object):
 
 class _LogTap(logging.Handler):
   def __init__(self, env):
-    logging.Handler.__init__(self, level=logging.INFO)
+    logging.Handler.__init__(self, level=logging.DEBUG)
     self.env = env
 
   def emit(self, record):
@@ -100,6 +110,14 @@ class _LogTap(logging.Handler):
     except Exception:
       msg = str(record.msg)
     self.env.logs.append((record.levelname, record.name, msg))
+    if self.env.log_yields is not None:
+      # a log handler doing cooperative I/O (socket / syslog handler under gevent): the greenlet
+      # that logs is suspended and everything else that is runnable goes first
+      import gevent
+      cur = gevent.getcurrent()
+      if cur is not gevent.get_hub():
+        self.env.log_yields += 1
+        gevent.sleep(0)
 
 
 def repo_root():
